@@ -49,6 +49,13 @@ try:
   res["check_exit"] = c.returncode; res["check_wall"] = round(time.time() - t0)
   lines = [l for l in c.stdout.split("\n") if l.startswith("VIOLATION") or "signature:" in l or l.startswith("HARNESS")]
   res["check_lines"] = lines[:8]
+  if "--also" in sys.argv:
+    # a second registered check run against the same patched tree (for a change that sits outside the anchors of the
+    # property it was written for and is another property's business)
+    other = sys.argv[sys.argv.index("--also") + 1]
+    c2 = sh("cd /verif && VERIF_REPO=%s ./check %s --tier %s" % (target, other, tier))
+    res["also_check"] = {"id": other, "exit": c2.returncode,
+                         "lines": [l for l in c2.stdout.split("\n") if l.startswith("VIOLATION") or "signature:" in l][:6]}
 finally:
   sh("git -C %s checkout -- ." % target); sh("git -C %s clean -fdq qkeras" % target)
 res["repo_clean"] = not sh("git -C %s status --short" % target).stdout.strip()
